@@ -1319,7 +1319,7 @@ fn main() {
     }
     if args.case.is_none() {
         let mut rng = Rng::new(args.seed);
-        let n = args.n.unwrap_or(if args.thorough() { 10000 } else { 1200 });
+        let n = args.n.unwrap_or(if args.thorough() { 8000 } else { 1200 });
         for i in 0..n {
             let mut r = rng.fork();
             let c = gen_case(&mut r, args.thorough());
